@@ -469,15 +469,16 @@ func (s *PlaySc) Run(env *core.Env, st *core.Stats) (vs []core.Violation) {
 			}
 			tracksAt[k][x.track] = true
 		}
+		crossTie := false
 		for k, n := range ties {
 			if n > maxTie {
 				maxTie = n
 			}
 			if len(tracksAt[k]) > 1 {
-				st.Probe("cross-track-tie")
-				break
+				crossTie = true
 			}
 		}
+		st.ProbeIf(crossTie, "cross-track-tie")
 		for ti, tr := range s.Tracks {
 			for _, e := range tr {
 				h = h.Int(ti).U64(uint64(e.Delta)).Bytes(e.Msg)
